@@ -272,7 +272,7 @@ def run(ctx: vlib.Ctx):
     tr = subprocess.run([sys.executable, os.path.join(str(vlib.VERIF), "tools", "translate.py"), "text"], capture_output=True, text=True, env=dict(os.environ))
     if tr.returncode != 0 or not tr.stdout.strip().endswith(", [])"):
         ctx.broken.append({"file": "tools/translate.py", "line": 0, "decl": "translator text", "msg": (tr.stdout + tr.stderr)[-300:]})
-    ctx.lean("text", ["Octave.Props.C09respell", "Octave.Props.C09respellU", "Octave.Props.C09respellV"], extra_targets=())
+    ctx.lean("text", ["Octave.Props.C09respell", "Octave.Props.C09respellU", "Octave.Props.C09respellV", "Octave.Props.C15orphantree"], extra_targets=())
     dg = erase_mirror_digest()
     if dg != ERASE_MIRROR_PIN:
         ctx.audit_problems.append(f"the erasure of the text engine (Lemmas/ContentErase.lean) or of the validator engine (Model/Value.lean, Model/Doc.lean) "
